@@ -525,3 +525,23 @@ Proof.
   apply for_addr_result in Hf. destruct Hf as (Hc & _). rewrite Hc.
   destruct (negb (c_insecure (get_cfg h1 a1)) && is_nil (c_name (get_cfg h1 a1))); reflexivity.
 Qed.
+
+(* ---- contact points --------------------------------------------------------------------------------- *)
+Lemma go_join_is_join host port : go_join_host_port host port = join_host_port host port.
+Proof. reflexivity. Qed.
+
+Lemma resolve_contact_hostname host port literal ips pv4 hi :
+  In hi (resolve_contact host port literal ips pv4) -> hi_hostname hi = host /\ hi_port hi = port.
+Proof.
+  unfold resolve_contact. destruct literal as [ip|].
+  - intros [<-|[]]. split; reflexivity.
+  - intros H. apply in_map_iff in H. destruct H as (x & <- & _). split; reflexivity.
+Qed.
+
+Lemma resolve_contact_nonempty host port ips pv4 :
+  ips <> [] -> resolve_contact host port None ips pv4 <> [].
+Proof.
+  unfold resolve_contact. intros Hn. destruct pv4.
+  - destruct (filter snd ips) eqn:E; [destruct ips; [congruence | discriminate] | discriminate].
+  - destruct ips; [congruence | discriminate].
+Qed.
